@@ -1,9 +1,20 @@
-use super::RelationToQueryTranslator;
+use super::{function_builder, RelationToQueryTranslator};
+use sqlparser::ast;
 
 #[derive(Clone, Copy)]
 pub struct SQLiteTranslator;
 
-impl RelationToQueryTranslator for SQLiteTranslator {}
+impl RelationToQueryTranslator for SQLiteTranslator {
+    /// SQLite has no FIRST aggregate: the expression is a grouping key
+    fn first(&self, expr: ast::Expr) -> ast::Expr {
+        expr
+    }
+
+    /// SQLite has no MEAN aggregate
+    fn mean(&self, expr: ast::Expr) -> ast::Expr {
+        function_builder("AVG", vec![expr], false)
+    }
+}
 
 #[cfg(test)]
 mod tests {}
